@@ -17,14 +17,19 @@ def main(ctx):
         for measure in (('min',) if ctx.quick and method == 'quadratic' else ('min', 'max')):
             J.append({'mod': MOD, 'fn': 'order', 'mode': 'sym', 'args': {'kernel': 'refinement', 'method': method, 'measure': measure, 'cap': cap}})
     J.append({'mod': MOD, 'fn': 'order', 'mode': 'sym', 'args': {'kernel': 'approximate_refinement', 'method': 'vfit', 'cap': cap}})
-    for k in ('sampled_ambiguity', 'sampled_risk', 'bounds', 'graph'):
+    for k in ('sampled_ambiguity', 'sampled_risk', 'bounds'):      # one symbolic pixel: forward / backward value identity
         J.append({'mod': MOD, 'fn': 'order', 'mode': 'sym', 'args': {'kernel': k, 'R': 1, 'C': 3, 'cap': cap}})
+    # several rows (the outermost prange, over rows, is the one distributed over threads): the access sets of different rows must not
+    # conflict (shared scratch buffers, accumulators); concrete background data, NaN holes included
+    for k in ('ambiguity', 'sampled_ambiguity', 'risk', 'sampled_risk', 'bounds'):
+        J.append({'mod': MOD, 'fn': 'order', 'mode': 'sym', 'args': {'kernel': k, 'R': 3, 'C': 2, 'concrete': True, 'cap': cap}})
+    J.append({'mod': MOD, 'fn': 'order', 'mode': 'sym', 'args': {'kernel': 'graph', 'R': 2, 'C': 3, 'cap': cap}})
     if not ctx.quick:
         J.append({'mod': MOD, 'fn': 'order', 'mode': 'sym', 'args': {'kernel': 'refinement', 'method': 'vfit', 'R': 2, 'C': 3, 'D': 4, 'cap': cap}})
         J.append({'mod': MOD, 'fn': 'order', 'mode': 'sym', 'args': {'kernel': 'approximate_refinement', 'method': 'quadratic', 'R': 2, 'C': 3, 'cap': cap}})
-        for k in ('ambiguity', 'risk'):
-            J.append({'mod': MOD, 'fn': 'order', 'mode': 'sym', 'args': {'kernel': k, 'R': 2, 'C': 2, 'cap': cap}})
-        J.append({'mod': MOD, 'fn': 'order', 'mode': 'sym', 'args': {'kernel': 'graph', 'R': 2, 'C': 3, 'cap': cap}})
+        for k in ('ambiguity', 'sampled_risk', 'bounds'):
+            J.append({'mod': MOD, 'fn': 'order', 'mode': 'sym', 'args': {'kernel': k, 'R': 3, 'C': 2, 'cap': cap}})
+        J.append({'mod': MOD, 'fn': 'order', 'mode': 'sym', 'args': {'kernel': 'graph', 'R': 3, 'C': 3, 'cap': cap}})
     # (2) the caller's datasets stay untouched by the image preparation of a multiscale run
     for b in (0, 2):
         J.append({'mod': MOD, 'fn': 'inputs_untouched', 'mode': 'sym', 'args': {'bands': b, 'cap': cap}})
@@ -33,6 +38,8 @@ def main(ctx):
     if not ctx.quick:
         J.append({'mod': MOD, 'fn': 'cbca_inputs', 'mode': 'sym', 'args': {'H': 3, 'W': 4, 'subpix': 2, 'cap': cap}})
         J.append({'mod': MOD, 'fn': 'inputs_untouched', 'mode': 'sym', 'args': {'bands': 3, 'R': 3, 'C': 4, 'cap': cap}})
+    # (2b) a filter's result does not depend on filters run before in the process (other sigma_space, same window width)
+    J.append({'mod': 'vf.harness.c10', 'fn': 'bilateral', 'mode': 'sym', 'args': {'value': True, 'conc_mask': [0] * 9, 'sigma_space': 0.7, 'pre_sigma': 0.9, 'cap': 60}})
     # (3) class-level schema dictionaries shared between step classes: acceptance of a class does not depend on the classes checked before
     hist = [('census', ['window_size'], [('sad', {'window_size': 7}), ('zncc', {'window_size': 9})]),
             ('sad', ['window_size', 'subpix'], [('census', {'window_size': 3}), ('sad', {'window_size': 4})]),
@@ -48,9 +55,11 @@ def main(ctx):
             cx['harness'] = r['job']['mod']
             cexs.append(cx)
     own = [c for c in cexs if c['harness'] == MOD]
-    c05 = [c for c in cexs if c['harness'] != MOD]
+    c05 = [c for c in cexs if c['harness'] == 'vf.harness.c05']
+    c10 = [c for c in cexs if c['harness'] == 'vf.harness.c10']
     ctx.replay_all(own, MOD, 'replay')
     ctx.replay_all(c05, 'vf.harness.c05', 'replay')
+    ctx.replay_all(c10, 'vf.harness.c10', 'replay')
     # (4) histories on machine objects: repeated checks/runs, other pipelines checked before (E3, real PandoraMachine with EUF stubs)
     e3 = run_e3(ctx, 'C18', 4 if ctx.quick else 6, ms_variants=((2, 2),), suffix_styles=(0,), fillings=(False,), mirror=False)
     ctx.replay_all(e3, 'vf.harness.e3jobs', 'replay')
